@@ -483,3 +483,180 @@ pub open spec fn ecb_send(v: EcV) -> SendV {
         _ => arbitrary(),
     }
 }
+
+// ---- State ---------------------------------------------------------------------------------------------------
+pub open spec fn fd_invoke() -> spec_fn(Seq<u8>) -> Dec<InvV> {
+    |s: Seq<u8>| d_invoke(s)
+}
+
+pub open spec fn invs_v(v: Seq<Invoke>) -> Seq<InvV> {
+    v.map_values(|i: Invoke| invv(i))
+}
+
+/// the bytes read_data_arc consumes (uninterpreted; the value codec is not under contract)
+pub uninterp spec fn d_data_arc(s: Seq<u8>) -> Dec<DataArc>;
+
+pub open spec fn d_pair(s: Seq<u8>) -> Dec<(Seq<u8>, DataArc)> {
+    match d_str(s) {
+        Dec::Ok(k, s1) => match d_data_arc(s1) {
+            Dec::Ok(a, s2) => Dec::Ok((k, a), s2),
+            Dec::Fail => Dec::Fail,
+            Dec::Unknown => Dec::Unknown,
+        },
+        Dec::Fail => Dec::Fail,
+        Dec::Unknown => Dec::Unknown,
+    }
+}
+
+pub open spec fn fd_pair() -> spec_fn(Seq<u8>) -> Dec<(Seq<u8>, DataArc)> {
+    |s: Seq<u8>| d_pair(s)
+}
+
+/// forget the value, keep what was consumed
+pub open spec fn consumed<T>(d: Dec<T>) -> Dec<()> {
+    match d {
+        Dec::Ok(v, r) => Dec::Ok((), r),
+        Dec::Fail => Dec::Fail,
+        Dec::Unknown => Dec::Unknown,
+    }
+}
+
+pub struct StV {
+    pub id: u32,
+    pub doc_id: u32,
+    pub name: Seq<u8>,
+    pub history_type: u8,
+    pub is_parallel: bool,
+    pub is_final: bool,
+    pub initial: u32,
+    pub states: Seq<u32>,
+    pub onentry: Seq<u32>,
+    pub onexit: Seq<u32>,
+    pub transitions: Seq<u32>,
+    pub invoke: Seq<InvV>,
+    pub history: Seq<u32>,
+    pub parent: u32,
+    pub donedata: Option<DoneDataV>,
+}
+
+/// every persisted field of a state except the contents of the <data> map (value codec not under contract)
+pub open spec fn stv(s: State) -> StV {
+    StV {
+        id: s.id, doc_id: s.doc_id, name: sb(s.name), history_type: history_type_ordinal(s.history_type), is_parallel: s.is_parallel,
+        is_final: s.is_final, initial: s.initial, states: s.states@, onentry: s.onentry@, onexit: s.onexit@, transitions: s.transitions.data@,
+        invoke: invs_v(s.invoke.data@), history: s.history.data@, parent: s.parent,
+        donedata: match s.donedata { Some(d) => Some(ddv(d)), None => None },
+    }
+}
+
+/// what read_state expects of the State it fills in (State::new)
+pub open spec fn state_fresh(s: State) -> bool {
+    s.initial == 0 && s.states@.len() == 0 && s.onentry@.len() == 0 && s.onexit@.len() == 0 && s.transitions.data@.len() == 0
+        && s.invoke.data@.len() == 0 && s.history.data@.len() == 0
+}
+
+pub open spec fn ht_of(fl: u16) -> u8 {
+    if fl & 3 == 1 { 1u8 } else if fl & 3 == 2 { 2u8 } else { 0u8 }
+}
+
+pub open spec fn d_opt_list<T>(present: bool, s: Seq<u8>, f: spec_fn(Seq<u8>) -> Dec<T>) -> Dec<Seq<T>> {
+    if present { d_list(s, f) } else { Dec::Ok(Seq::<T>::empty(), s) }
+}
+
+pub open spec fn d_opt_done_data(present: bool, s: Seq<u8>) -> Dec<Option<DoneDataV>> {
+    if present {
+        match d_done_data(s) {
+            Dec::Ok(v, r) => Dec::Ok(Some(v), r),
+            Dec::Fail => Dec::Fail,
+            Dec::Unknown => Dec::Unknown,
+        }
+    } else {
+        Dec::Ok(None, s)
+    }
+}
+
+pub open spec fn d_opt_pairs(present: bool, s: Seq<u8>) -> Dec<()> {
+    if present { consumed(d_list(s, fd_pair())) } else { Dec::Ok((), s) }
+}
+
+pub open spec fn d_state(s: Seq<u8>) -> Dec<StV> {
+    match d_id(s) { Dec::Ok(id, s1) => d_st1(id, s1), Dec::Fail => Dec::Fail, Dec::Unknown => Dec::Unknown }
+}
+
+pub open spec fn d_st1(id: u32, s: Seq<u8>) -> Dec<StV> {
+    match d_id(s) { Dec::Ok(doc, s1) => d_st2(id, doc, s1), Dec::Fail => Dec::Fail, Dec::Unknown => Dec::Unknown }
+}
+
+pub open spec fn d_st2(id: u32, doc: u32, s: Seq<u8>) -> Dec<StV> {
+    match d_str(s) { Dec::Ok(name, s1) => d_st3(id, doc, name, s1), Dec::Fail => Dec::Fail, Dec::Unknown => Dec::Unknown }
+}
+
+pub open spec fn d_st3(id: u32, doc: u32, name: Seq<u8>, s: Seq<u8>) -> Dec<StV> {
+    match d_uint(s) { Dec::Ok(fl, s1) => d_st4(id, doc, name, fl as u16, s1), Dec::Fail => Dec::Fail, Dec::Unknown => Dec::Unknown }
+}
+
+pub open spec fn d_st4(id: u32, doc: u32, name: Seq<u8>, fl: u16, s: Seq<u8>) -> Dec<StV> {
+    match d_opt_id((fl & 0x10) != 0, s) { Dec::Ok(ini, s1) => d_st5(id, doc, name, fl, ini, s1), Dec::Fail => Dec::Fail, Dec::Unknown => Dec::Unknown }
+}
+
+pub open spec fn d_st5(id: u32, doc: u32, name: Seq<u8>, fl: u16, ini: u32, s: Seq<u8>) -> Dec<StV> {
+    match d_opt_list((fl & 0x10) != 0, s, fd_id()) { Dec::Ok(sts, s1) => d_st6(id, doc, name, fl, ini, sts, s1), Dec::Fail => Dec::Fail, Dec::Unknown => Dec::Unknown }
+}
+
+pub open spec fn d_st6(id: u32, doc: u32, name: Seq<u8>, fl: u16, ini: u32, sts: Seq<u32>, s: Seq<u8>) -> Dec<StV> {
+    match d_opt_list((fl & 0x04) != 0, s, fd_id()) { Dec::Ok(en, s1) => d_st7(id, doc, name, fl, ini, sts, en, s1), Dec::Fail => Dec::Fail, Dec::Unknown => Dec::Unknown }
+}
+
+pub open spec fn d_st7(id: u32, doc: u32, name: Seq<u8>, fl: u16, ini: u32, sts: Seq<u32>, en: Seq<u32>, s: Seq<u8>) -> Dec<StV> {
+    match d_opt_list((fl & 0x08) != 0, s, fd_id()) { Dec::Ok(ex, s1) => d_st8(id, doc, name, fl, ini, sts, en, ex, s1), Dec::Fail => Dec::Fail, Dec::Unknown => Dec::Unknown }
+}
+
+pub open spec fn d_st8(id: u32, doc: u32, name: Seq<u8>, fl: u16, ini: u32, sts: Seq<u32>, en: Seq<u32>, ex: Seq<u32>, s: Seq<u8>) -> Dec<StV> {
+    match d_list(s, fd_id()) { Dec::Ok(tr, s1) => d_st9(id, doc, name, fl, ini, sts, en, ex, tr, s1), Dec::Fail => Dec::Fail, Dec::Unknown => Dec::Unknown }
+}
+
+pub open spec fn d_st9(id: u32, doc: u32, name: Seq<u8>, fl: u16, ini: u32, sts: Seq<u32>, en: Seq<u32>, ex: Seq<u32>, tr: Seq<u32>, s: Seq<u8>) -> Dec<StV> {
+    match d_opt_list((fl & 0x100) != 0, s, fd_invoke()) { Dec::Ok(iv, s1) => d_st10(id, doc, name, fl, ini, sts, en, ex, tr, iv, s1), Dec::Fail => Dec::Fail, Dec::Unknown => Dec::Unknown }
+}
+
+pub open spec fn d_st10(id: u32, doc: u32, name: Seq<u8>, fl: u16, ini: u32, sts: Seq<u32>, en: Seq<u32>, ex: Seq<u32>, tr: Seq<u32>, iv: Seq<InvV>, s: Seq<u8>) -> Dec<StV> {
+    match d_opt_list((fl & 0x400) != 0, s, fd_id()) { Dec::Ok(hi, s1) => d_st11(id, doc, name, fl, ini, sts, en, ex, tr, iv, hi, s1), Dec::Fail => Dec::Fail, Dec::Unknown => Dec::Unknown }
+}
+
+pub open spec fn d_st11(id: u32, doc: u32, name: Seq<u8>, fl: u16, ini: u32, sts: Seq<u32>, en: Seq<u32>, ex: Seq<u32>, tr: Seq<u32>, iv: Seq<InvV>, hi: Seq<u32>, s: Seq<u8>) -> Dec<StV> {
+    match d_opt_pairs((fl & 0x200) != 0, s) { Dec::Ok(u, s1) => d_st12(id, doc, name, fl, ini, sts, en, ex, tr, iv, hi, s1), Dec::Fail => Dec::Fail, Dec::Unknown => Dec::Unknown }
+}
+
+pub open spec fn d_st12(id: u32, doc: u32, name: Seq<u8>, fl: u16, ini: u32, sts: Seq<u32>, en: Seq<u32>, ex: Seq<u32>, tr: Seq<u32>, iv: Seq<InvV>, hi: Seq<u32>, s: Seq<u8>) -> Dec<StV> {
+    match d_id(s) { Dec::Ok(pa, s1) => d_st13(id, doc, name, fl, ini, sts, en, ex, tr, iv, hi, pa, s1), Dec::Fail => Dec::Fail, Dec::Unknown => Dec::Unknown }
+}
+
+pub open spec fn d_st13(id: u32, doc: u32, name: Seq<u8>, fl: u16, ini: u32, sts: Seq<u32>, en: Seq<u32>, ex: Seq<u32>, tr: Seq<u32>, iv: Seq<InvV>, hi: Seq<u32>, pa: u32, s: Seq<u8>) -> Dec<StV> {
+    match d_opt_done_data((fl & 0x80) != 0, s) {
+        Dec::Ok(dd, s1) => Dec::Ok(StV {
+            id: id, doc_id: doc, name: name, history_type: ht_of(fl), is_parallel: (fl & 0x40) != 0, is_final: (fl & 0x20) != 0, initial: ini,
+            states: sts, onentry: en, onexit: ex, transitions: tr, invoke: iv, history: hi, parent: pa, donedata: dd,
+        }, s1),
+        Dec::Fail => Dec::Fail,
+        Dec::Unknown => Dec::Unknown,
+    }
+}
+
+/// a sequence of length 0 is the empty sequence (keeps the extensionality reasoning out of the big functions)
+pub proof fn lemma_len0_is_empty<T>(s: Seq<T>)
+    requires
+        s.len() == 0,
+    ensures
+        s == Seq::<T>::empty(),
+{
+    assert(s =~= Seq::<T>::empty());
+}
+
+pub proof fn lemma_map_empty<A, B>(s: Seq<A>, f: spec_fn(A) -> B)
+    requires
+        s.len() == 0,
+    ensures
+        s.map_values(f) == Seq::<B>::empty(),
+{
+    assert(s.map_values(f) =~= Seq::<B>::empty());
+}
